@@ -448,7 +448,7 @@ func toolsimPhases(tier string) map[string]phase {
 	return map[string]phase{
 		"explore": {Name: "explore", Build: "toolsim", TestRun: "^TestVerifToolsim$", Engine: "toolsim", Mode: "explore", BudgetS: sel(40, 720), Workers: 16, Samples: 2},
 		"race":    {Name: "race", Build: "toolsim-race", TestRun: "^TestVerifToolsim$", Engine: "toolsim-free", Mode: "race", BudgetS: sel(12, 180), Workers: 8, GoMaxProcs: 4, SeedOffset: 300_000_000},
-		"binary":  {Name: "binary", Build: "toolsim", TestRun: "^TestVerifToolsim$", Engine: "toolsim-binary", Mode: "binary", Workers: int(sel(6, 16)), MaxSeeds: uint64(sel(2, 12)), SeedOffset: 600_000_000},
+		"binary":  {Name: "binary", Build: "toolsim", TestRun: "^TestVerifToolsim$", Engine: "toolsim-binary", Mode: "binary", Workers: int(sel(8, 16)), MaxSeeds: uint64(sel(16, 64)), SeedOffset: 600_000_000},
 	}
 }
 
